@@ -49,6 +49,9 @@ func (core *JApiCore) processDirective(d *directive.Directive) *jerr.JApiError {
 }
 
 func (core *JApiCore) processPasteDirective(paste *directive.Directive) *jerr.JApiError {
+	core.verifPasteEnter()
+	defer core.verifPasteLeave()
+
 	if paste.Annotation != "" {
 		return paste.KeywordError(jerr.AnnotationIsForbiddenForTheDirective)
 	}
